@@ -32,9 +32,11 @@ type c08Case struct {
 	Body         bodySpec      `json:"body"`
 	K            int           `json:"k,omitempty"`
 	Frag         s3x.Frag      `json:"frag,omitempty"`
+	FreshDir     bool          `json:"freshDir,omitempty"` // (prior absent) the key lies below "directories" that hold no other key
 }
 
 const c08Key = "dir/victim.bin"
+const c08FreshKey = "fresh/deeper/victim.bin"
 
 // c08OldPart: the accepted parts of the pending upload (part 2 is long, so that a rejected
 // re-upload of it is usually shorter than what is stored).
@@ -56,6 +58,9 @@ func c08Build(cs c08Case, uploadID string, metaLimit int) (rq *s3x.Req, verdict 
 	body := cs.Body.bytes()
 	payload = body
 	key = c08Key
+	if cs.FreshDir && cs.Prior == "absent" && cs.Kind != "part" {
+		key = c08FreshKey
+	}
 	rq = &s3x.Req{Method: "PUT", Path: "/bk0/" + key, Body: body, Frag: cs.Frag}
 	verdict = mustAccept
 	switch cs.Kind {
@@ -544,6 +549,9 @@ func c08Run(t *testing.T, c *evid.Collector) {
 								continue // the empty body only in the main configuration
 							}
 							all = append(all, c08Case{Backend: k, IntegrityOff: ioff, Prior: prior, Kind: kind, Fault: f, Body: b, K: 3})
+							if prior == "absent" && kind != "part" && bi == 0 && !ioff {
+								all = append(all, c08Case{Backend: k, Prior: prior, Kind: kind, Fault: f, Body: b, K: 3, FreshDir: true})
+							}
 						}
 					}
 				}
@@ -630,6 +638,7 @@ func c08Run(t *testing.T, c *evid.Collector) {
 		if cs.Fault != "reader-fails" {
 			cs.Frag = genFrag(rt, len(cs.Body.bytes()))
 		}
+		cs.FreshDir = cs.Prior == "absent" && rapid.Bool().Draw(rt, "freshdir")
 		if one(cs, "random") {
 			rt.Fatalf("C08 violated")
 		}
